@@ -330,6 +330,8 @@ func intWidth(t types.Type) (bits int, signed bool) {
 func (w *World) preludeFixed() string {
 	return `(declare-datatypes ((Loc 0)) (((loc (obj Int) (off Int)))))
 (define-fun nilloc () Loc (loc 0 0))
+(declare-fun elem (Loc Int) Loc)
+(assert (forall ((b Loc) (k Int)) (! (= (elem b k) (loc (obj b) (+ (off b) k))) :pattern ((elem b k)))))
 (declare-datatypes ((Slice 0)) (((slice (sptr Loc) (slen Int) (scap Int)))))
 (define-fun nilslice () Slice (slice nilloc 0 0))
 (declare-datatypes ((Iface 0)) (((iface (itag Int) (ival Loc)))))
@@ -337,14 +339,14 @@ func (w *World) preludeFixed() string {
 (declare-sort Str 0)
 (declare-datatypes ((Bytes 0)) (((bytes (bnil Bool) (bstr Str)))))
 (declare-datatypes ((Unit 0)) (((unit))))
-(declare-fun str.len (Str) Int)
-(declare-fun str.at (Str Int) Int)
-(declare-fun str.cat (Str Str) Str)
-(declare-fun str.sub (Str Int Int) Str)
-(declare-fun str.lt (Str Str) Bool)
-(declare-fun str.prefix (Str Str) Bool)
-(declare-fun str.fromint (Int) Str)
-(declare-fun str.idx (Str Str) Int)
+(declare-fun s.len (Str) Int)
+(declare-fun s.at (Str Int) Int)
+(declare-fun s.cat (Str Str) Str)
+(declare-fun s.sub (Str Int Int) Str)
+(declare-fun s.lt (Str Str) Bool)
+(declare-fun s.prefix (Str Str) Bool)
+(declare-fun s.fromint (Int) Str)
+(declare-fun s.idx (Str Str) Int)
 `
 }
 
@@ -370,10 +372,10 @@ func (w *World) strLitFacts(chars bool) []string {
 		out = append(out, sb.String())
 	}
 	for i, s := range w.strLitArr {
-		out = append(out, fmt.Sprintf("(= (str.len strlit!%d) %d)", i, len(s)))
+		out = append(out, fmt.Sprintf("(= (s.len strlit!%d) %d)", i, len(s)))
 		if chars && len(s) <= 64 {
 			for j := 0; j < len(s); j++ {
-				out = append(out, fmt.Sprintf("(= (str.at strlit!%d %d) %d)", i, j, s[j]))
+				out = append(out, fmt.Sprintf("(= (s.at strlit!%d %d) %d)", i, j, s[j]))
 			}
 		}
 	}
